@@ -306,7 +306,11 @@ def run(ctx):
                      {"correspondence": "dump", "tree": pk(t), "model": got, "ast_dump": want})
         ih = impl_hash(t)
         ctx.count("impl_result", "hash" if not ih.startswith("exc:") else ih)
-        mh = h[3:] if h.startswith("OK ") else ("exc:ValueError" if h == "NONE" else h)
+        mh = h[3:] if h.startswith("OK ") else ("exc:UnicodeEncodeError" if h == "NONE" else h)
+        if ih.startswith("exc:") and w == "1":
+            # totality (F47): every well-formed tree has a hash - any character of a constant or a name
+            ctx.fail("failing-input", "calc_ast_hash raises %s on %s (dump %r)" % (ih[4:], origin, want[:120]),
+                     {"oracle": "total", "tree": pk(t), "dump": show(t)}, key=core.digest({"p": ID, "total": key}))
         if mh != ih:
             ctx.corr_disagreements += 1
             ctx.fail("no-failing-input-found",
@@ -451,6 +455,10 @@ def replay(ctx, w):
             ctx.fail("failing-input", "still fails: %r vs %r" % (w["src"], w["variant"]), w)
     elif o in ("process", "threeway"):
         ways_and_processes(ctx)
+    elif o == "total":
+        ih = impl_hash(unpk(w["tree"]))
+        if ih.startswith("exc:"):
+            ctx.fail("failing-input", "still fails: calc_ast_hash raises %s on %s" % (ih[4:], w.get("dump", "")[:200]), w)
     elif "correspondence" in w:
         t = unpk(w["tree"])
         row = [hc.np_arg(t), hc.to_rsx(t)]
@@ -460,6 +468,6 @@ def replay(ctx, w):
                 ctx.fail("no-failing-input-found", "correspondence dump still broken on %s" % show(t), w)
         else:
             h = ctx.driver.call("hash", [row])[0]
-            mh = h[3:] if h.startswith("OK ") else "exc:ValueError"
+            mh = h[3:] if h.startswith("OK ") else "exc:UnicodeEncodeError"
             if mh != impl_hash(t):
                 ctx.fail("no-failing-input-found", "correspondence hash still broken on %s: model %s code %s" % (show(t), mh, impl_hash(t)), w)
